@@ -178,6 +178,18 @@ Intra(b) == LET rs == NonEmptyRuns(b)
                      y == Toks(rs[i + 1].c)
                  IN x[Len(x)] \notin Ws /\ y[1] \notin Ws /\ ("i" \in rs[i].f) # ("i" \in rs[i + 1].f)
 
+\* a bold / italic / struck-through run begins or ends with a punctuation character and touches a word of the
+\* neighbouring run there (CommonMark: a delimiter between a letter and punctuation neither opens nor closes emphasis)
+PunctTok(t) == t \in {"c:" \o x : x \in {"*", "_", "#", "|", "`", ">", "<", "[", "]", "(", ")", "\\", "&", ";", "~", ".", "-", "+", "="}}
+WordTok(t) == t \notin Ws /\ ~PunctTok(t)
+JoinPunct(b) == LET rs == NonEmptyRuns(b)
+                    em(r) == r.f \cap {"b", "i", "s"} # {} /\ "c" \notin r.f
+                IN \E i \in 1..(Len(rs) - 1) :
+                     LET x == Toks(rs[i].c)
+                         y == Toks(rs[i + 1].c)
+                     IN \/ em(rs[i + 1]) /\ PunctTok(y[1]) /\ WordTok(x[Len(x)])
+                        \/ em(rs[i]) /\ PunctTok(x[Len(x)]) /\ WordTok(y[1])
+
 Classes(b, o) ==
   IF b.k = "tbl" THEN
     {"tbl"} \cup ({"t:" \o b.rows[r][c] : r \in 1..Len(b.rows), c \in 1..Len(b.rows[1])} \ {"t:" \o p : p \in PlainClasses})
@@ -204,6 +216,7 @@ Classes(b, o) ==
     \cup (IF Tight(b) THEN {"join:fmt"} ELSE {})
     \cup (IF \E i \in 1..Len(b.runs) : Cardinality(b.runs[i].f \ {"c"}) > 1 /\ Toks(b.runs[i].c) # <<>> THEN {"fmt:multi"} ELSE {})
     \cup (IF SNest(b) THEN {"join:strike+"} ELSE {})
+    \cup (IF JoinPunct(b) THEN {"join:punct"} ELSE {})
     \cup (IF o.emph = "_" /\ Intra(b) THEN {"opt:us-intraword"} ELSE {})
     \cup (IF o.wrap > 0 /\ b.k = "p" THEN {"opt:wrap"} ELSE {})
     \cup (IF o.meta THEN {"opt:meta"} ELSE {})
